@@ -2,6 +2,7 @@
 #include <algorithm>
 
 #include "exec_impl.hpp"
+#include "wide.hpp"
 
 namespace sim {
 
@@ -458,6 +459,33 @@ void ExecImpl::op_set_reporter(const Op& op) {
   bool ok = o.reports.size() == 1 && o.reports[0].gen == prev;
   if (both) ok = ok && o.oks.size() == 1 && o.oks[0].gen == prev_ok; else ok = ok && o.oks.empty();
   if (!ok) fail("C16", "set_reporter_returns_previous", "set_reporter did not return the previously installed reporter(s) (violation reporter generation " + std::to_string(prev) + ", OK reporter generation " + std::to_string(prev_ok) + ")");
+}
+
+// ---------------- C09: arity 0..15, every passing mode (instantiation, see DESIGN 6) ----------------
+void ExecImpl::op_wide(const Op& op) {
+  nontriv("C09");
+  if (shadow) return;
+  int c = static_cast<int>(static_cast<unsigned>(op.a[0]) % static_cast<unsigned>(wide_case_count));
+  WideRun R;
+  Obs o; obs_stack.push_back(&o);
+  bool threw = false;
+  try { wide_run(c, R, ((op.a[1] % 50) + 50) % 50); } catch (...) { threw = true; }
+  obs_stack.pop_back();
+  std::string who = std::string("wide call ") + R.name + " (arity " + std::to_string(R.n) + ")";
+  if (threw || !o.reports.empty()) { fail("C09,C01", "wide_rejected", who + " with wildcard matchers was not accepted" + (o.reports.empty() ? "" : ": " + o.reports[0].msg)); return; }
+  if (R.hits[0] < 1 || R.hits[1] != 1 || R.hits[2] != 1 || R.returned != 4242 + R.n || !R.satisfied) { fail("C09,C08", "wide_clauses", who + ": clause evaluation counts WITH/SIDE_EFFECT/RETURN = " + std::to_string(R.hits[0]) + "/" + std::to_string(R.hits[1]) + "/" + std::to_string(R.hits[2]) + ", returned " + std::to_string(R.returned)); return; }
+  static const char* ph[3] = {"WITH", "SIDE_EFFECT", "RETURN"};
+  for (int k = 1; k <= R.n; ++k) {
+    for (int p = 0; p < 3; ++p) {
+      long wv = R.want_val[k];
+      if (p == 2 && (R.mode[k] == WM_REF || R.mode[k] == WM_PTR)) wv = 1000 + k;   // written through by an earlier side effect
+      if (R.seen[p][k].val != wv) { fail("C09", "wide_position", who + ": _" + std::to_string(k) + " in " + ph[p] + " has value " + std::to_string(R.seen[p][k].val) + ", the caller passed " + std::to_string(wv) + " at that position"); return; }
+      if (R.mode[k] == WM_VAL) { if (R.seen[p][k].addr != R.seen[0][k].addr || !R.seen[p][k].addr) { fail("C09", "wide_alias", who + ": _" + std::to_string(k) + " is a different object in " + ph[p]); return; } }
+      else if (R.seen[p][k].addr != R.want_addr[k]) { fail("C09", "wide_alias", who + ": _" + std::to_string(k) + " in " + ph[p] + " does not alias the caller's argument (passing mode " + std::to_string(R.mode[k]) + ")"); return; }
+    }
+    if ((R.mode[k] == WM_REF || R.mode[k] == WM_PTR) && R.after[k] != 1000 + k) { fail("C09", "wide_out_param", who + ": a write through _" + std::to_string(k) + " is not seen by the caller"); return; }
+  }
+  if (R.copies != 0) { fail("C09", "no_copy", who + ": a move-only argument's pointee was copied"); return; }
 }
 
 // ---------------- end of run ----------------
